@@ -38,6 +38,26 @@ a tree of `let` / `Option.bind` / `if` / `match` nodes in SSA (state-passing) fo
     `Enum::Variant(args)` builds a value.  Types and functions outside the fragment named in the target description
     (`abstract_types`, `extern_paths`, `extern_methods`, `extern_values`, `extern_var_fns`) become parameters of every definition of the unit.
 
+  * byte buffers and state passing (units with `u8_bytes`: the functions of `src/helper/crypt.rs`): `u8` is `UInt8`, `Vec<u8>` / `&[u8]` /
+    `[u8; N]` are `List UInt8`; `vec![x; n]`, `vec![..]`, `x[a..b]` / `x[..]` / `x[a..]` / `x[..b]` on lists (`rt_bslice`, out of range = panic),
+    `.len()`, `.extend(..)` / `.extend_from_slice(..)` (as `++`), `x[i] = v` / `std::mem::replace(&mut x[i], v)` (`rt_list_set`),
+    `LittleEndian::write_u32 / read_u32`, `u16 / u32::to_le_bytes`, `str::encode_utf16`, `.flat_map(closure)`, `.map(AsRef::as_ref)`, `.copied()`,
+    `.cmp(..)` with `match` on `Ordering::{Less, Equal, Greater}`, `.min / .max`, `Option::unwrap_or`, unsigned `/` `%` by a variable (by zero = panic),
+    truncating casts between unsigned types (`x as u32` = `x % 2^32`), `char as u16`.  `Result<T, E>` is `Option T` (`Ok` = `some`, `Err(_)` = `none`:
+    the error value is not represented).  `while c { .. }` = `rt_whileM cond body fuel state` (state = the outer variables the body assigns, in
+    declaration order; fuel = the `while_fuel` expression of the target description; out of fuel = `none`).  A `match` statement whose arms assign
+    outer variables is a join like `if`.  A function with one `&mut` parameter (and no value) returns that parameter's final value; a call
+    `f(&mut x, ..)` of it rebinds `x` (`calls` entry with the index of the `&mut` parameter).  `let x = <literal>;` takes its type at each use,
+    `let mut x = <literal>;` the first of i32 / usize / u32 / u64 under which the rest of the block type-checks (`inline_int_lets`).
+  * externs of such units: `extern_draws` (the k-th call of `gen_random_N()` in source order is `gen_random_N k`: explicit randomness),
+    `extern_ctors` (`Sha512::new()`, `Writer::new(..)`: a value parameter), `extern_mut_methods` (`digest.update(x)`: `digest' = upd digest x`),
+    `extern_mut_fns` (`write_start_tag(&mut writer, ..)`: `writer' = f writer ..`), `xml_writer` (`write_event(Event::Decl(BytesDecl::new(..)))`,
+    `writer.into_inner().into_inner()`), `const_files` (constants of other files), `objects` (a struct whose setters the function calls is an
+    `rt_Obj`: `x.set_f(v)` / `x.remove_f()` are resolved by reading the setter's body `self.<field>.set_value(value); self` /
+    `self.<field>.remove_value(); self` and the field's type in the struct's own file).  A callee compiled in the same run passes its externs
+    on to its callers (recorded in a `-- SIG` line next to the definition so that a caller still compiles against a snapshot); next to every
+    definition of such a unit a tactic `gen_unfold_<name>` unfolds it together with whatever was lifted out of it.
+
 Anything else raises `Unsupported`: the committed snapshot of that definition is kept and the item is reported under
 "fallbacks" (not a violation; the tie for it falls back to the correspondence check alone).
 Prints one JSON line: {"functions_extracted": [...], "fallbacks": [...], "changed": bool}."""
@@ -52,7 +72,8 @@ OUT = os.environ.get("UMYA_FNS_OUT") or os.path.join(ROOT, "lean", "Umya", "Mode
 
 ENUMV = {}       # enum with payloads -> {"params": [abstract type names], "variants": [(name, [types])]}
 SIGNED = ("i32", "i64")
-UNSIGNED = ("u8", "u32", "usize", "u64")
+UNSIGNED = ("u8", "u16", "u32", "usize", "u64")
+BITS = {"u8": 8, "u16": 16, "u32": 32, "usize": 64, "u64": 64}
 INTS = SIGNED + UNSIGNED
 LEAN_RESERVED = {"end", "at", "from", "fun", "then", "have", "show", "by", "do", "in", "open", "section", "namespace",
                  "variable", "theorem", "def", "instance", "class", "structure", "where", "with", "then", "else", "local", "prefix"}
@@ -78,7 +99,10 @@ def lean_type(t):
     if t == "str": return "List Char"
     if t == "char": return "Char"
     if t == "unit": return "Unit"
+    if t == "byte": return "UInt8"
+    if t == "ordering": return "Ordering"
     if isinstance(t, tuple):
+        if t[0] == "obj": return "rt_Obj"
         if t[0] in ("opt", "res"): return f"Option ({lean_type(t[1])})" if t[1] != "?" else "Option Unit"
         if t[0] == "enum": return t[1] + "_tag"
         if t[0] == "tuple": return "(" + " × ".join(lean_type(x) for x in t[1]) + ")"
@@ -100,6 +124,8 @@ class Fn:
         self.consts = {}            # rust const name -> (lean term, type)
         self.depth = 0
         self.loop_k = []            # continuations of the enclosing `for` bodies (`continue`)
+        self.draws = {}             # random generator -> number of draws so far (source order)
+        self.depth_loop = 0         # > 0 inside a lifted closure / loop body
 
     # ---------------------------------------------------------------- names and types
     def fresh(self, base):
@@ -117,6 +143,9 @@ class Fn:
         name, args = ty[1], ty[2]
         if name in self.unit.spec.get("abstract_types", {}): return ("abs", self.unit.spec["abstract_types"][name])
         if name in self.unit.spec.get("enum_vals", ()): return ("enumv", name)
+        if name == "u8" and self.unit.spec.get("u8_bytes"): return "byte"
+        if name in self.unit.spec.get("objects", {}): return ("obj", name)
+        if name == "Result": return ("res", self.conv_type(args[0]))
         if name in INTS or name in ("bool", "f64", "char"): return name
         if name in ("String", "str") or name in self.unit.str_generics: return "str"
         if name == "Option": return ("opt", self.conv_type(args[0]))
@@ -217,9 +246,30 @@ class Fn:
         _, stmts, tail = block
         for s in list(stmts) + ([("expr", tail)] if tail is not None else []):
             if s[0] == "let" and s[1][0] == "pbind": local.add(s[1][1])
+            elif s[0] == "assign" and s[1][0] == "index" and s[1][1][0] == "path" and len(s[1][1][1]) == 1:
+                if s[1][1][1][0] not in local and s[1][1][1][0] not in acc: acc.append(s[1][1][1][0])
             elif s[0] == "assign":
                 if s[1][0] != "path" or len(s[1][1]) != 1: raise Unsupported("assignment to a place that is not a variable")
                 if s[1][1][0] not in local and s[1][1][0] not in acc: acc.append(s[1][1][0])
+            elif s[0] == "while":
+                self.assigned(s[2], acc, local)
+            elif s[0] == "expr" and s[1][0] == "call":
+                # `f(&mut x, ..)`, `std::mem::replace(&mut x[i], v)`, `LittleEndian::write_u32(x, v)`: x is written
+                tgts = []
+                for a in s[1][2]:
+                    if a[0] == "unary" and a[1] == "&mut":
+                        t = a[2]
+                        if t[0] == "index": t = t[1]
+                        if t[0] == "path" and len(t[1]) == 1: tgts.append(t[1][0])
+                if s[1][1][1][-2:] == ["LittleEndian", "write_u32"] and s[1][2]:
+                    t = s[1][2][0]
+                    while t[0] == "unary": t = t[2]
+                    if t[0] == "path" and len(t[1]) == 1: tgts.append(t[1][0])
+                for x in tgts:
+                    if x not in local and x not in acc: acc.append(x)
+            elif s[0] == "expr" and s[1][0] == "mcall" and s[1][1][0] == "path" and len(s[1][1][1]) == 1 and s[1][1][1][0] in getattr(getattr(self, "root", self), "obj_vars", ()):
+                x = s[1][1][1][0]
+                if x not in local and x not in acc: acc.append(x)
             elif s[0] == "expr" and s[1][0] == "if":
                 self.assigned(s[1][2], acc, local)
                 if s[1][3] is not None: self.assigned(s[1][3], acc, local)
@@ -228,7 +278,7 @@ class Fn:
                 if tgt[0] == "path" and tgt[1][0] not in local and tgt[1][0] not in acc: acc.append(tgt[1][0])
             elif s[0] == "expr" and s[1][0] == "block":
                 self.assigned(s[1], acc, local)
-            elif s[0] == "expr" and s[1][0] == "mcall" and s[1][2] in ("push", "push_str") and s[1][1][0] == "path" and len(s[1][1][1]) == 1:
+            elif s[0] == "expr" and s[1][0] == "mcall" and s[1][2] in ("push", "push_str", "extend", "extend_from_slice") and s[1][1][0] == "path" and len(s[1][1][1]) == 1:
                 x = s[1][1][1][0]
                 if x not in local and x not in acc: acc.append(x)
             elif s[0] == "for":
@@ -267,7 +317,9 @@ class Fn:
         g.root = getattr(self, "root", self)
         cap = [x for x in self.free_vars(body, env) if x not in [p for p, _ in params]]
         env2, lparams = {}, []
-        for x in cap:
+        for x in list(cap):
+            if env[x][1] == "int?":           # an inlined literal `let`
+                env2[x] = env[x]; cap.remove(x); continue
             ln = g.fresh(x.replace("self.", "")); env2[x] = (ln, env[x][1]); lparams.append((ln, env[x][1]))
         for pn, pt in params:
             ln = g.fresh(pn); env2[pn] = (ln, pt); lparams.append((ln, pt))
@@ -281,6 +333,7 @@ class Fn:
         rec = {"kind": kind, "owner": self.name, "name": name, "fn": g, "params": lparams, "ret": None, "tree": None, "state_ty": state_ty}
         self.unit.aux.append(rec)          # registered first: numbering follows the order of appearance in the source
         g.depth = 1                        # no `return` / `?` out of a closure or a loop body
+        g.depth_loop = 1
         tree = g.lower_block(body if body[0] == "block" else ("block", [], body), env2, k)
         rty = g.join_types(tys) if k_of is None else None
         rec["tree"], rec["ret"] = tree, rty
@@ -339,6 +392,25 @@ class Fn:
                             return ("let", n, vt, val, self.lower_stmts(rest, tail, env4, k))
                         arms.append((pt, self.lower_block(blk, env2, kk)))
                 return self.wrap(pre, ("match", sv, arms))
+            if (self.unit.spec.get("inline_int_lets") and _mut and ty is None and pat[0] == "pbind" and e[0] == "int" and e[2] is None):
+                # `let mut x = <unsuffixed literal>;`: the type is what the uses of `x` say.  The candidates are tried in turn (Rust's default
+                # first); the lowering is strictly typed (no implicit conversion), so a wrong candidate fails on the first use
+                root = getattr(self, "root", self)
+                last, msgs = None, []
+                for cand in ("i32", "usize", "u32", "u64"):
+                    snap = (dict(self.counts), len(self.unit.aux), list(self.unit.extra_params), dict(root.draws))
+                    try:
+                        n = self.fresh(pat[1])
+                        env2 = dict(env); env2[pat[1]] = (n, cand)
+                        return ("let", n, cand, str(e[1]), self.lower_stmts(rest, tail, env2, k))
+                    except Unsupported as ex:
+                        last = ex; msgs.append(f"{cand}: {ex}")
+                        self.counts = snap[0]; del self.unit.aux[snap[1]:]; self.unit.extra_params[:] = snap[2]; root.draws = snap[3]
+                raise Unsupported(f"`let mut {pat[1]} = {e[1]}`: no integer type fits (" + "; ".join(msgs) + ")")
+            if (self.unit.spec.get("inline_int_lets") and not _mut and ty is None and pat[0] == "pbind" and e[0] == "int" and e[2] is None):
+                # `let x = <unsuffixed literal>;` (immutable): the literal takes its type at each use, as Rust's inference would give it
+                env = dict(env); env[pat[1]] = (str(e[1]), "int?")
+                return self.lower_stmts(rest, tail, env, k)
             pre = []
             v, vt = self.expr(e, env, pre, want)
             if want is not None: v, vt = self.coerce(v, vt, want)
@@ -370,6 +442,8 @@ class Fn:
             return self.lower_stmts(rest, tail, env, k)
         if kind == "assign":
             _, lhs, op, rhs = s
+            if lhs[0] == "index" and op == "=" and lhs[1][0] == "path" and len(lhs[1][1]) == 1 and lhs[1][1][0] in env:
+                return self.lower_stmts([("expr", ("call", ("path", ["std", "mem", "replace"]), [("unary", "&mut", lhs), rhs]))] + rest, tail, env, k)
             if lhs[0] != "path" or len(lhs[1]) != 1 or lhs[1][0] not in env: raise Unsupported("assignment to a place that is not a local variable")
             x = lhs[1][0]
             if op != "=":
@@ -383,6 +457,8 @@ class Fn:
             return self.wrap(pre, self.lower_stmts(rest, tail, env, k))
         if kind == "for":
             return self.lower_for(s, rest, tail, env, k)
+        if kind == "while":
+            return self.lower_while(s, rest, tail, env, k)
         if kind == "expr":
             e = s[1]
             if e[0] == "return": return self.lower_return(e, env)
@@ -410,6 +486,38 @@ class Fn:
                 pre.append(("let", n, xt, new))
                 env = dict(env); env[x] = (n, xt)
                 return self.wrap(pre, self.lower_stmts(rest, tail, env, k))
+            upd = self.mutation(e, env)
+            if upd is not None:
+                x, pre, new, mon = upd
+                xt = env[x][1]
+                n = self.fresh(x)
+                pre.append(("bind", n, new) if mon else ("let", n, xt, new))
+                env = dict(env); env[x] = (n, xt)
+                return self.wrap(pre, self.lower_stmts(rest, tail, env, k))
+            if e[0] == "match":
+                # a `match` statement: like `if`, the outer variables its arms assign are its value
+                if any(self.arm_diverges(b) for _, _, b in e[2]):
+                    if self.depth > 0: raise Unsupported("return inside a nested value block")
+                    outer = lambda env2, _v: self.lower_stmts(rest, tail, {x: env2[x] for x in env}, k)
+                    pre = []
+                    sv, arms = self.match_arms(e, env, pre, outer)
+                    return self.wrap(pre, ("match", sv, arms))
+                names = [x for x in self.assigned(("block", [("expr", e)], None)) if x in env]
+                pre = []
+                if not names:
+                    sv, arms = self.match_arms(e, env, pre, lambda e2, _v: ("ret", "()"))
+                    if any(self.panics(t) for _, t in arms):
+                        return self.wrap(pre, ("join", ("match", sv, arms), [(self.fresh("u"), "unit")], self.lower_stmts(rest, tail, env, k)))
+                    return self.wrap(pre, self.lower_stmts(rest, tail, env, k))
+                tup = lambda e2, _v: ("ret", e2[names[0]][0] if len(names) == 1 else "(" + ", ".join(e2[x][0] for x in names) + ")")
+                self.depth += 1
+                sv, arms = self.match_arms(e, env, pre, tup)
+                self.depth -= 1
+                env2 = dict(env)
+                new = []
+                for x in names:
+                    n = self.fresh(x); new.append((n, env[x][1])); env2[x] = (n, env[x][1])
+                return self.wrap(pre, ("join", ("match", sv, arms), new, self.lower_stmts(rest, tail, env2, k)))
             if e[0] == "macro" and e[1] in ("panic", "unreachable"): return ("panic",)
             if e[0] == "macro" and e[1] == "assert":
                 pre = []
@@ -505,8 +613,145 @@ class Fn:
             return self.wrap(pre, self.lower_stmts(rest, tail, env, k))
         return self.wrap(pre, ("join", first, new, self.lower_stmts(rest, tail, env2, k)))
 
+    def lower_while(self, s, rest, tail, env, k):
+        """`while c { body }` = `rt_whileM cond body fuel state`: the state is the tuple of the outer variables the body assigns (in the
+        order of their declaration); the fuel is the expression the target description gives (`while_fuel`, a bound on the number of
+        iterations over the variables in scope); running out of fuel is `none`"""
+        _, c, body = s
+        from rustfrag import Parser, tokenize
+        ftxt = self.unit.spec.get("while_fuel")
+        if ftxt is None: raise Unsupported("while loop without a fuel expression in the target description")
+        pre = []
+        fuel, ft = self.expr(Parser(tokenize(ftxt)).expr(), env, pre, "usize")
+        if ft not in UNSIGNED: raise Unsupported("while fuel type")
+        asg = set(self.assigned(body))
+        names = [x for x in env if x in asg]
+        if not names: raise Unsupported("while loop that assigns no outer variable")
+        params = [(x, env[x][1]) for x in names]
+        outer_env = {x: v for x, v in env.items() if x not in names}
+        ccall, cty, cmon = self.lift("cond", params, c, outer_env)
+        if cty != "bool" or cmon: raise Unsupported("while condition")
+        def k_of(g):
+            def kb(env3, _v):
+                return ("ret", env3[names[0]][0] if len(names) == 1 else "(" + ", ".join(env3[x][0] for x in names) + ")")
+            g.loop_k = [kb]
+            return kb
+        sty = env[names[0]][1] if len(names) == 1 else ("tuple", [env[x][1] for x in names])
+        bcall, _rty, mon = self.lift("while", params, body, outer_env, k_of, state_ty=sty)
+        st_args = " st" if len(names) == 1 else "".join(" st" + ".2" * i + (".1" if i < len(names) - 1 else "") for i in range(len(names)))
+        init = env[names[0]][0] if len(names) == 1 else "(" + ", ".join(env[x][0] for x in names) + ")"
+        btxt = f"(fun st => {bcall}{st_args})" if mon else f"(fun st => some ({bcall}{st_args}))"
+        env2 = dict(env)
+        new = []
+        for x in names:
+            n = self.fresh(x); new.append((n, env[x][1])); env2[x] = (n, env[x][1])
+        first = ("opt", f"rt_whileM (fun st => {ccall}{st_args}) {btxt} {fuel} {init}")
+        return self.wrap(pre, ("join", first, new, self.lower_stmts(rest, tail, env2, k)))
+
+    def obj_method(self, struct, m):
+        """a setter of a struct named under `objects` in the target description, read from the struct's own file:
+        `self.<field>.set_value(<param>); self` / `self.<field>.remove_value(); self` -> (operation, field)"""
+        src = self.unit.sources(self.unit.spec["objects"][struct])
+        decl = src.parse_fn(m, struct)
+        ps = [p for p in decl["params"] if p[0] != "self"]
+        stmts, tl = decl["body"][1], decl["body"][2]
+        if len(stmts) != 1 or tl != ("path", ["self"]) or stmts[0][0] != "expr": raise Unsupported(f"{struct}::{m}: not a plain setter")
+        e = stmts[0][1]
+        if not (e[0] == "mcall" and e[1][0] == "field" and e[1][1] == ("path", ["self"])): raise Unsupported(f"{struct}::{m}: not a plain setter")
+        field, op, args = e[1][2], e[2], e[4]
+        fty = src.struct_fields(struct).get(field)
+        kind = {"StringValue": ("Str", "str"), "UInt32Value": ("U32", "u32")}.get(fty[1] if fty and fty[0] == "named" else None)
+        if kind is None: raise Unsupported(f"{struct}::{m}: field {field} of type {fty}")
+        if op == "set_value" and len(ps) == 1 and args == [("path", [ps[0][0]])]: return ("set" + kind[0], field, kind[1])
+        if op == "remove_value" and not ps and not args: return ("remove" + kind[0], field, None)
+        raise Unsupported(f"{struct}::{m}: not a plain setter")
+
+    def mutation(self, e, env):
+        """an expression statement that updates one local variable in place: (variable, pre, new value, can panic) or None"""
+        if e[0] == "mcall" and e[1][0] == "path" and len(e[1][1]) == 1 and e[1][1][0] in env:
+            x, name, args = e[1][1][0], e[2], e[4]
+            xt = env[x][1]
+            if name in ("extend", "extend_from_slice") and isinstance(xt, tuple) and xt[0] == "list" and len(args) == 1:
+                pre = []
+                v, vt = self.expr(args[0], env, pre, xt)
+                if not (isinstance(vt, tuple) and vt[0] in ("list", "iter") and vt[1] == xt[1]): raise Unsupported(f".{name}() of {vt} on {xt}")
+                return x, pre, f"({env[x][0]} ++ {v})", False
+            xm = self.unit.spec.get("extern_mut_methods", {}).get((xt if isinstance(xt, str) else xt[0], name))
+            if xm is not None:
+                pname, ptys = xm
+                if len(args) != len(ptys): raise Unsupported(f"method .{name}(): arity")
+                pre = []; vs = [env[x][0]]
+                for a, pt in zip(args, ptys):
+                    v, vt = self.expr(a, env, pre, pt); v, vt = self.coerce(v, vt, pt); vs.append(v)
+                lt = " → ".join([lean_type(xt)] + [lean_type(t) for t in ptys] + [lean_type(xt)])
+                if (pname, lt) not in self.unit.extra_params: self.unit.extra_params.append((pname, lt))
+                return x, pre, "(" + " ".join([pname] + vs) + ")", False
+            if (self.unit.spec.get("xml_writer") and name == "write_event" and len(args) == 1 and args[0][0] == "call" and args[0][1][1] == ["Event", "Decl"]
+                    and len(args[0][2]) == 1 and args[0][2][0][0] == "call" and args[0][2][0][1][1] == ["BytesDecl", "new"] and len(args[0][2][0][2]) == 3):
+                # `writer.write_event(Event::Decl(BytesDecl::new(version, encoding, standalone)))`
+                pre = []; vs = [env[x][0]]
+                ptys = ["str", ("opt", "str"), ("opt", "str")]
+                for a, pt in zip(args[0][2][0][2], ptys):
+                    v, vt = self.expr(a, env, pre, pt); v, vt = self.coerce(v, vt, pt); vs.append(v)
+                lt = " → ".join([lean_type(xt)] + [lean_type(t) for t in ptys] + [lean_type(xt)])
+                if ("xml_decl", lt) not in self.unit.extra_params: self.unit.extra_params.append(("xml_decl", lt))
+                return x, pre, "(" + " ".join(["xml_decl"] + vs) + ")", False
+            if isinstance(xt, tuple) and xt[0] == "obj":
+                op, field, vty = self.obj_method(xt[1], name)
+                pre = []
+                if vty is None:
+                    if args: raise Unsupported(f".{name}(): arity")
+                    return x, pre, f"(rt_Obj.{op} {env[x][0]} \"{field}\")", False
+                if len(args) != 1: raise Unsupported(f".{name}(): arity")
+                v, vt = self.expr(args[0], env, pre, vty)
+                v, vt = self.coerce(v, vt, vty)
+                return x, pre, f"(rt_Obj.{op} {env[x][0]} \"{field}\" {v})", False
+            return None
+        if e[0] != "call": return None
+        segs, args = e[1][1], e[2]
+        def target(a):
+            while a[0] == "unary": a = a[2]
+            return a[1][0] if a[0] == "path" and len(a[1]) == 1 and a[1][0] in env else None
+        if segs[-2:] == ["LittleEndian", "write_u32"] and len(args) == 2 and target(args[0]) and self.unit.spec.get("u8_bytes"):
+            x = target(args[0]); pre = []
+            if env[x][1] != ("list", "byte"): raise Unsupported("write_u32 target")
+            v, vt = self.expr(args[1], env, pre, "u32")
+            if vt != "u32": raise Unsupported("write_u32 value")
+            return x, pre, f"rt_write_u32_le {env[x][0]} {v}", True
+        if segs[-2:] == ["mem", "replace"] and len(args) == 2 and args[0][0] == "unary" and args[0][1] == "&mut" and args[0][2][0] == "index" and target(args[0][2][1]):
+            x = target(args[0][2][1]); xt = env[x][1]; pre = []
+            if not (isinstance(xt, tuple) and xt[0] == "list"): raise Unsupported("indexed store target")
+            i, it = self.expr(args[0][2][2], env, pre, "usize")
+            if it not in UNSIGNED: raise Unsupported("index type")
+            v, vt = self.expr(args[1], env, pre, xt[1]); v, vt = self.coerce(v, vt, xt[1])
+            return x, pre, f"rt_list_set {env[x][0]} {i} {v}", True
+        xf = self.unit.spec.get("extern_mut_fns", {}).get(segs[0]) if len(segs) == 1 else None
+        if xf is not None:
+            # a function outside the fragment that updates its `&mut` argument #mi: `x' = f(.., x, ..)`
+            pname, ptys, mi = xf
+            if len(args) != len(ptys) or not target(args[mi]): raise Unsupported(f"call of {segs[0]}: the `&mut` argument")
+            x = target(args[mi]); pre = []; vs = []
+            for a, pt in zip(args, ptys):
+                v, vt = self.expr(a, env, pre, pt); v, vt = self.coerce(v, vt, pt); vs.append(v)
+            if env[x][1] != ptys[mi]: raise Unsupported(f"call of {segs[0]}: `&mut` argument of type {env[x][1]}")
+            lt = " → ".join([lean_type(t) for t in ptys] + [lean_type(ptys[mi])])
+            if (pname, lt) not in self.unit.extra_params: self.unit.extra_params.append((pname, lt))
+            return x, pre, "(" + " ".join([pname] + vs) + ")", False
+        dep = self.unit.spec.get("calls", {}).get(segs[0]) if len(segs) == 1 else None
+        if dep is not None and len(dep) > 4 and dep[4] is not None:
+            mi = dep[4]
+            if len(args) != len(dep[1]) or not target(args[mi]): raise Unsupported(f"call of {segs[0]}: the `&mut` argument")
+            x = target(args[mi]); pre = []
+            v, vt, mon = self.unit.call(self, segs[0], args, env, pre, raw=True)
+            if vt != env[x][1]: raise Unsupported(f"call of {segs[0]}: `&mut` argument of type {env[x][1]}")
+            return x, pre, v, mon
+        return None
+
     def lower_return(self, e, env):
         if self.depth > 0: raise Unsupported("return inside a nested value block")
+        if getattr(self, "mutret", None) is not None:
+            if e[1] is not None: raise Unsupported("return with a value in a function with a `&mut` parameter")
+            return ("ret", env[self.mutret][0])
         if e[1] is None: return ("ret", "()")
         pre = []
         v, vt = self.expr(e[1], env, pre, self.ret_ty)
@@ -517,12 +762,17 @@ class Fn:
     def coerce(self, v, vt, want):
         if want is None or vt == want: return v, vt
         if vt == "int?" and want in INTS: return v, want
+        if vt == "int?" and want == "byte": return f"({v} : UInt8)", want
+        if isinstance(vt, tuple) and isinstance(want, tuple) and vt[0] == want[0] == "res" and (vt[1] == "?" or vt[1] == want[1]):
+            return v, want
         if vt == "int?" and want == "f64":
             raise Unsupported("integer literal where f64 is expected")
         if isinstance(vt, tuple) and isinstance(want, tuple) and vt[0] == want[0] == "opt" and (vt[1] == "?" or vt[1] == want[1] or vt[1] == "int?"):
             return v, want
         if isinstance(vt, tuple) and isinstance(want, tuple) and vt[0] == want[0] == "list":
             iv, it = self.coerce("", vt[1], want[1])
+            return v, ("list", it)
+        if isinstance(vt, tuple) and isinstance(want, tuple) and vt[0] == "iter" and want[0] == "list" and vt[1] == want[1]:
             return v, want
         if isinstance(want, tuple) and want[0] == "opaque": return v, vt
         raise Unsupported(f"type mismatch: {vt} where {want} is expected")
@@ -603,6 +853,8 @@ class Fn:
             if segs == ["Ok"] and isinstance(sty, tuple) and sty[0] == "res" and subs is not None and len(subs) == 1:
                 t, e2 = self.pattern(subs[0], sty[1], env)
                 return f"some {t}", e2
+            if sty == "ordering" and segs[0] == "Ordering" and len(segs) == 2 and subs is None and segs[1] in ("Less", "Equal", "Greater"):
+                return {"Less": ".lt", "Equal": ".eq", "Greater": ".gt"}[segs[1]], env
             if isinstance(sty, tuple) and sty[0] == "enum" and len(segs) == 2 and segs[0] in ("Self", sty[1]):
                 if segs[1] not in self.unit.enums[sty[1]]: raise Unsupported(f"unknown variant {segs[1]}")
                 if subs is not None and any(s[0] not in ("pwild", "prest") for s in subs): raise Unsupported("payload binder in an enum pattern")
@@ -642,6 +894,8 @@ class Fn:
             if op == "-":
                 n = self.fresh("t"); pre.append(("bind", n, f"usub {a} {b}")); return n, t
             if op in ("/", "%") and b_lit not in (None, 0): return f"({a} {op} {b})", t
+            if op in ("/", "%") and b_lit is None:          # division by a variable: by zero = panic
+                n = self.fresh("t"); pre.append(("bind", n, f"{'rt_udiv' if op == '/' else 'rt_umod'} {a} {b}")); return n, t
         if t == "f64":
             self.needs_F = True
             f = {"+": "add", "-": "sub", "*": "mul", "/": "div"}.get(op)
@@ -669,7 +923,9 @@ class Fn:
         if k == "paren": return self.expr(e[1], env, pre, want)
         if k == "int":
             t = e[2] if e[2] else "int?"
-            if t == "int?" and want in INTS: t = want
+            if t == "u8" and self.unit.spec.get("u8_bytes"): t = "byte"
+            if t == "int?" and (want in INTS or want == "byte"): t = want
+            if t == "byte": return (f"({e[1]} : UInt8)", t)
             return (str(e[1]), t)
         if k == "float":
             body = e[1]
@@ -710,7 +966,7 @@ class Fn:
             raise Unsupported(f"field {e[2]}")
         if k == "unary":
             op = e[1]
-            if op in "&*": return self.expr(e[2], env, pre, want)
+            if op in ("&", "*", "&mut"): return self.expr(e[2], env, pre, want)
             if op == "!":
                 v, vt = self.expr(e[2], env, pre, "bool")
                 if vt != "bool": raise Unsupported("`!` on " + str(vt))
@@ -760,12 +1016,15 @@ class Fn:
                 self.needs_F = True
                 if vt in SIGNED or vt == "int?": return (f"(RFloat.ofInt {v} : F)", "f64")
                 if vt in UNSIGNED: return (f"(RFloat.ofInt (Int.ofNat {v}) : F)", "f64")
+            if vt == "int?" and dst in BITS and v.isdigit() and int(v) >= 2 ** BITS[dst]: return (str(int(v) % 2 ** BITS[dst]), dst)   # `<wider literal> as uN`
             if vt == "int?" and dst in INTS: return (v, dst)
             if vt == "f64" and dst == "i64":
                 self.needs_F = True
                 return (f"(rt_f64_as_i64 {v})", "i64")
             if vt == "i32" and dst == "i64": return (v, dst)
             if vt in UNSIGNED and dst in UNSIGNED and UNSIGNED.index(vt) <= UNSIGNED.index(dst): return (v, dst)
+            if vt in UNSIGNED and dst in UNSIGNED: return (f"({v} % {2 ** BITS[dst]})", dst)       # truncating cast
+            if vt == "char" and dst == "u16": return (f"(Char.toNat {v} % 65536)", dst)
             if vt in UNSIGNED and dst == "i64": return (f"(Int.ofNat {v})", dst)
             if vt == "char" and dst in ("u32", "u64", "usize"): return (f"(Char.toNat {v})", dst)
             raise Unsupported(f"cast {vt} as {dst}")
@@ -776,6 +1035,12 @@ class Fn:
                 a, at = self.expr(ix[1], env, pre, "usize"); b, bt = self.expr(ix[2], env, pre, "usize")
                 if at not in UNSIGNED or bt not in UNSIGNED: raise Unsupported("slice bounds")
                 n = self.fresh("t"); pre.append(("bind", n, f"rt_slice {r} {a} {b}")); return (n, "str")
+            if isinstance(rt, tuple) and rt[0] == "list" and ix[0] == "range" and not ix[3]:
+                if ix[1] is None and ix[2] is None: return (r, rt)
+                a, at = self.expr(ix[1], env, pre, "usize") if ix[1] is not None else ("0", "usize")
+                b, bt = self.expr(ix[2], env, pre, "usize") if ix[2] is not None else (f"(List.length {r})", "usize")
+                if at not in UNSIGNED or bt not in UNSIGNED: raise Unsupported("slice bounds")
+                n = self.fresh("t"); pre.append(("bind", n, f"rt_bslice {r} {a} {b}")); return (n, rt)
             if isinstance(rt, tuple) and rt[0] == "list" and ix[0] != "range":
                 i, it = self.expr(ix, env, pre, "usize")
                 if it not in UNSIGNED: raise Unsupported("index type")
@@ -829,6 +1094,14 @@ class Fn:
                 if args: raise Unsupported("format!: too many arguments")
                 if not parts: return ("([] : List Char)", "str")
                 return ("(" + " ++ ".join(parts) + ")" if len(parts) > 1 else parts[0], "str")
+            if e[1] == "vec": return self.expr(("array", e[2]), env, pre, want)
+            if e[1] == "vec_repeat":
+                elt = want[1] if isinstance(want, tuple) and want[0] == "list" else None
+                a, at = self.expr(e[2][0], env, pre, elt)
+                if at == "int?": raise Unsupported("vec![x; n] with an untyped element")
+                n, nt = self.expr(e[2][1], env, pre, "usize")
+                if nt not in UNSIGNED: raise Unsupported("vec![x; n]: length type")
+                return (f"(List.replicate {n} {a})", ("list", at))
             raise Unsupported(f"macro {e[1]}! in value position")
         if k == "call":
             segs, args = e[1][1], e[2]
@@ -836,6 +1109,36 @@ class Fn:
                 v, vt = self.expr(args[0], env, pre, want[1] if isinstance(want, tuple) and want[0] == "opt" and want[1] != "?" else None)
                 if vt == "int?": vt = "i32"
                 return (f"(some {v})", ("opt", vt))
+            if segs == ["Ok"] and len(args) == 1:
+                v, vt = self.expr(args[0], env, pre, want[1] if isinstance(want, tuple) and want[0] == "res" and want[1] != "?" else None)
+                if vt == "int?": vt = "i32"
+                return (f"(some {v})", ("res", vt))
+            if segs == ["Err"] and len(args) == 1:
+                self.expr(args[0], env, pre)            # the error value is not represented (`Result<T, E>` is `Option T`)
+                return ("none", ("res", "?"))
+            if segs == ["Vec", "with_capacity"] and len(args) == 1:
+                if not (isinstance(want, tuple) and want[0] == "list"): raise Unsupported("Vec::with_capacity() without a type")
+                self.expr(args[0], env, pre, "usize")
+                return (f"([] : {lean_type(want)})", want)
+            if len(segs) == 1 and segs[0] in self.unit.spec.get("extern_draws", {}) and not args:
+                # a random draw: the k-th call (in source order) of the generator is the k-th element of an explicit stream
+                if self.depth_loop > 0: raise Unsupported("random draw inside a loop")
+                rty = self.unit.spec["extern_draws"][segs[0]]
+                root = getattr(self, "root", self)
+                k = root.draws.get(segs[0], 0); root.draws[segs[0]] = k + 1
+                lt = "Nat → " + lean_type(rty)
+                if (segs[0], lt) not in self.unit.extra_params: self.unit.extra_params.append((segs[0], lt))
+                return (f"({segs[0]} {k})", rty)
+            xc = self.unit.spec.get("extern_ctors", {}).get(tuple(segs))
+            if xc is not None:
+                # a constructor of a type outside the fragment (`Sha512::new()`, `Writer::new(..)`): a value parameter; its arguments are not represented
+                pname, rty = xc
+                if (pname, lean_type(rty)) not in self.unit.extra_params: self.unit.extra_params.append((pname, lean_type(rty)))
+                return (pname, rty)
+            if segs[-2:] == ["LittleEndian", "read_u32"] and len(args) == 1 and self.unit.spec.get("u8_bytes"):
+                v, vt = self.expr(args[0], env, pre, ("list", "byte"))
+                if vt != ("list", "byte"): raise Unsupported("read_u32 argument")
+                n = self.fresh("t"); pre.append(("bind", n, f"rt_read_u32_le {v}")); return (n, "u32")
             if segs == ["String", "from"] and len(args) == 1: return self.expr(args[0], env, pre, "str")
             if segs in (["Cow", "Owned"], ["Cow", "Borrowed"]) and len(args) == 1: return self.expr(args[0], env, pre, want)
             if segs == ["Vec", "new"] and not args:
@@ -936,6 +1239,13 @@ class Fn:
             return (f"(Chrono.midnight C {int(m.group(1))} {int(m.group(2))} {int(m.group(3))})", "datetime")
         ext = self.unit.extern_method(self, recv, name, args)
         if ext is not None: return ext
+        if (self.unit.spec.get("xml_writer") and name == "into_inner" and not args and recv[0] == "mcall" and recv[2] == "into_inner" and not recv[4]):
+            # `writer.into_inner().into_inner()`: the bytes written so far
+            w, wt = self.expr(recv[1], env, pre)
+            if isinstance(wt, tuple) and wt[0] == "abs":
+                lt = f"{lean_type(wt)} → {lean_type(('list', 'byte'))}"
+                if ("xml_bytes", lt) not in self.unit.extra_params: self.unit.extra_params.append(("xml_bytes", lt))
+                return (f"(xml_bytes {w})", ("list", "byte"))
         r, rt = self.expr(recv, env, pre)
         mkey = name + (f"::<{turbofish[0][1]}>" if turbofish and turbofish[0][0] == "named" else "")
         em = self.unit.spec.get("extern_methods", {}).get((rt if isinstance(rt, str) else rt[0], mkey))
@@ -967,6 +1277,32 @@ class Fn:
             if mon:
                 n = self.fresh("t"); pre.append(("bind", n, f"rt_mapM (fun x => {call}{app}) {r}")); return (n, ("iter", cty))
             return (f"(List.map (fun x => {call}{app}) {r})", ("iter", cty))
+        if name == "map" and isinstance(rt, tuple) and rt[0] == "iter" and len(args) == 1 and args[0] == ("path", ["AsRef", "as_ref"]): return (r, rt)
+        if name in ("copied", "cloned") and isinstance(rt, tuple) and rt[0] == "iter" and not args: return (r, rt)
+        if name == "flat_map" and isinstance(rt, tuple) and rt[0] == "iter" and len(args) == 1 and args[0][0] == "closure":
+            params, app = self.closure_params(args[0], rt[1])
+            call, cty, mon = self.lift("closure", params, args[0][2], env)
+            if not (isinstance(cty, tuple) and cty[0] in ("list", "iter")): raise Unsupported(f"flat_map: closure returns {cty}")
+            if mon:
+                n = self.fresh("t"); pre.append(("bind", n, f"rt_mapM (fun x => {call}{app}) {r}")); return (f"(List.flatten {n})", ("iter", cty[1]))
+            return (f"(List.flatMap (fun x => {call}{app}) {r})", ("iter", cty[1]))
+        if name == "len" and is_seq and not args: return (f"(List.length {r})", "usize")
+        if name == "len" and rt == "str" and not args: return (f"(rt_utf8_len {r})", "usize")
+        if name == "cmp" and rt in UNSIGNED and len(args) == 1:
+            a, at = self.expr(args[0], env, pre, rt)
+            if at != rt: raise Unsupported(f"cmp of {rt} with {at}")
+            return (f"(compare {r} {a})", "ordering")
+        if name in ("min", "max") and rt in UNSIGNED and len(args) == 1:
+            a, at = self.expr(args[0], env, pre, rt)
+            if at != rt: raise Unsupported(f"{name} of {rt} with {at}")
+            return (f"(Nat.{name} {r} {a})", rt)
+        if name == "unwrap_or" and isinstance(rt, tuple) and rt[0] == "opt" and rt[1] != "?" and len(args) == 1:
+            a, at = self.expr(args[0], env, pre, rt[1])
+            a, at = self.coerce(a, at, rt[1])
+            return (f"(Option.getD {r} {a})", rt[1])
+        if name == "encode_utf16" and rt == "str" and not args: return (f"(rt_encode_utf16 {r})", ("iter", "u16"))
+        if name == "to_le_bytes" and rt in ("u16", "u32") and not args and self.unit.spec.get("u8_bytes"):
+            return (f"(rt_{rt}_le_bytes {r})", ("list", "byte"))
         if name == "sum" and isinstance(rt, tuple) and rt[0] == "iter" and not args:
             t = self.conv_type(turbofish[0]) if turbofish else want
             if t not in UNSIGNED or rt[1] != t: raise Unsupported(f"sum::<{t}> over {rt[1]}")
@@ -1046,14 +1382,20 @@ class Unit:
             try:
                 c = self.src.parse_const(name)
             except Unsupported:
-                return None
+                c = None
+                for cf in self.spec.get("const_files", ()):
+                    try:
+                        c = self.sources(cf).parse_const(name); break
+                    except Unsupported:
+                        pass
+                if c is None: return None
         pre = []
         want = fn.conv_type(c[2])
         v, vt = fn.expr(c[3], {}, pre, want)
         if pre: raise Unsupported("const with a panicking initialiser")
         return fn.coerce(v, vt, want)
 
-    def call(self, fn, name, args, env, pre):
+    def call(self, fn, name, args, env, pre, raw=False):
         ext = self.spec.get("extern_fns", {}).get(name)
         if ext is not None:
             ptys, rty, can_panic = ext
@@ -1069,7 +1411,10 @@ class Unit:
             return (call, rty)
         dep = self.spec.get("calls", {}).get(name)
         if dep is not None:
-            lean_name, ptys, rty, can_panic = dep
+            lean_name, ptys, rty, can_panic = dep[:4]
+            mi = dep[4] if len(dep) > 4 else None
+            if mi is not None and not raw: raise Unsupported(f"call of {name} (a function with a `&mut` parameter) in value position")
+            if mi is not None: rty = ptys[mi]           # a function with a `&mut` parameter returns that parameter's final value
             if len(args) != len(ptys): raise Unsupported(f"call of {name}: arity")
             # the callee's implicit parameters / panic effect as compiled on this run (or as in the snapshot kept for it)
             sig = SIGS.get(lean_name, {})
@@ -1077,10 +1422,18 @@ class Unit:
             vs = []
             if sig.get("F"): fn.needs_F = True; vs.append("F")
             if sig.get("C"): fn.needs_C = True; vs.append("C")
+            for a in sig.get("abs", []):
+                if a not in abstract_params(self): raise Unsupported(f"call of {name}: the caller does not declare the abstract type {a}")
+                vs.append(a)
+            # the externs the callee takes as parameters are parameters of the caller as well, passed on under the same names
+            for n_lt in sorted(tuple(x) for x in sig.get("extra", [])):
+                if n_lt not in self.extra_params: self.extra_params.append(n_lt)
+                vs.append(n_lt[0])
             for a, pt in zip(args, ptys):
                 v, vt = fn.expr(a, env, pre, pt)
                 v, vt = fn.coerce(v, vt, pt); vs.append(v)
             call = f"({lean_name} " + " ".join(vs) + ")" if vs else lean_name
+            if raw: return (call[1:-1] if vs and can_panic else call, rty, can_panic)
             if can_panic:
                 n = fn.fresh("t"); pre.append(("bind", n, call)); return (n, rty)
             return (call, rty)
@@ -1163,6 +1516,7 @@ def compile_fn(unit, lean_name, decl, params_override=None, doc=""):
     """decl: {"params": [(name, ast type)], "ret": ast type, "body": block}"""
     fn = Fn(unit, unit.src, lean_name)
     env, params = {}, []
+    fn.obj_vars = set()
     for pn, pt in decl["params"]:
         if pn == "self":
             owner = unit.spec.get("self_type")
@@ -1178,11 +1532,21 @@ def compile_fn(unit, lean_name, decl, params_override=None, doc=""):
         t = pt if isinstance(pt, str) or pt[0] in ("list", "opt", "enum") else fn.conv_type(pt)
         if isinstance(t, tuple) and t[0] == "opt" and t[1] == "str": pass
         n = fn.fresh(pn); env[pn] = (n, t); params.append((n, t))
-    fn.ret_ty = decl["ret"] if isinstance(decl["ret"], (str,)) or (isinstance(decl["ret"], tuple) and decl["ret"][0] in ("opt", "tuple", "list", "enum")) else fn.conv_type(decl["ret"])
+        if isinstance(t, tuple) and t[0] == "obj": fn.obj_vars.add(pn)
+    fn.ret_ty = fn.conv_type(decl["ret"]) if decl.get("ast") else decl["ret"] if isinstance(decl["ret"], (str,)) or (isinstance(decl["ret"], tuple) and decl["ret"][0] in ("opt", "tuple", "list", "enum")) else fn.conv_type(decl["ret"])
     def k(env2, v):
         if v is None: return ("ret", "()")
         t, ty = fn.coerce(v[0], v[1], fn.ret_ty)
         return ("ret", t)
+    mutrefs = decl.get("mutrefs") or []
+    if mutrefs:
+        # a function with one `&mut` parameter and no value: state passing, the result is the final value of that parameter
+        if len(mutrefs) != 1 or fn.ret_ty != "unit": raise Unsupported("`&mut` parameters: only one, in a function without a value")
+        fn.mutret = mutrefs[0]
+        fn.ret_ty = env[fn.mutret][1]
+        def k(env2, v):
+            if v is not None: raise Unsupported("value at the end of a function with a `&mut` parameter")
+            return ("ret", env2[fn.mutret][0])
     first_aux = len(unit.aux)
     tree = fn.lower_block(decl["body"], env, k)
     auxs = unit.aux[first_aux:]
@@ -1197,17 +1561,25 @@ def compile_fn(unit, lean_name, decl, params_override=None, doc=""):
             if a["owner"] != owner: continue
             emit_aux(a["name"])            # what it uses comes first
             aps, art, amon = fn_signature(a["fn"], a["params"], a["ret"] if a["ret"] is not None else a["state_ty"], a["tree"], unit.extra_params, nF, nC)
-            what = "closure" if a["kind"] == "closure" else "body of the `for` loop"
+            what = {"closure": "closure", "cond": "condition of the `while` loop", "while": "body of the `while` loop"}.get(a["kind"], "body of the `for` loop")
             short = doc.split("`: ")[0] + "`" if "`: " in doc else doc
             out.append(f"/-- {short}: the {what} #{a['name'].rsplit('_', 1)[1]} of `{owner}` (captured variables first"
-                       + (", then the loop state, then the loop variable" if a["kind"] == "loop" else "") + f") -/\ndef {a['name']}{aps} : {art} :=\n"
+                       + (", then the loop state, then the loop variable" if a["kind"] == "loop" else ", then the loop state" if a["kind"] in ("cond", "while") else "") + f") -/\ndef {a['name']}{aps} : {art} :=\n"
                        + a["fn"].emit(a["tree"], amon, 1) + "\n\n")
     emit_aux(lean_name)
     out = "".join(out)
     ps, rt, mon = fn_signature(fn, params, fn.ret_ty, tree, unit.extra_params, nF, nC)
     body = fn.emit(tree, mon, 1)
-    SIGS[lean_name] = {"F": nF, "C": nC, "mon": mon}
-    return (out + f"/-- {doc} -/\ndef {lean_name}{ps} : {rt} :=\n{body}\n").replace("⟦X⟧", xargs)
+    SIGS[lean_name] = {"F": nF, "C": nC, "mon": mon, "extra": sorted(unit.extra_params), "abs": abstract_params(unit)}
+    sigline = ""
+    if unit.spec.get("emit_sig"):
+        sigline = "-- SIG " + json.dumps({"mon": mon, "extra": sorted(unit.extra_params), "abs": abstract_params(unit)}, ensure_ascii=False) + "\n"
+    unfold = ""
+    if unit.spec.get("emit_sig"):
+        # proofs about the unit unfold it by this tactic, so that they do not depend on how many closures / loop bodies were lifted out of it
+        names = [lean_name] + [a["name"] for a in auxs]
+        unfold = f"\n/-- unfolds `{lean_name}` and the definitions lifted out of it -/\nmacro \"gen_unfold_{lean_name}\" : tactic => `(tactic| simp only [" + ", ".join(names) + "])\n"
+    return (out + sigline + f"/-- {doc} -/\ndef {lean_name}{ps} : {rt} :=\n{body}\n" + unfold).replace("⟦X⟧", xargs)
 
 
 # ------------------------------------------------------------------------------------------------ targets
@@ -1473,6 +1845,62 @@ TARGETS = [
                                                         for v in ("key_hash_algorithm", "key_spin_count")]),
 ]
 
+# C14 / C15: the functions of src/helper/crypt.rs.  Byte buffers (`Vec<u8>`, `&[u8]`) are `List UInt8`; `Result<T, E>` is `Option T` (the error
+# value is not represented: every caller unwraps); a function with a `&mut` parameter returns that parameter's final value; `hash`, `crypt`,
+# `hmac`, `build_encryption_info` and base64 are externs (parameters of the generated definitions: the abstract primitives of the hand
+# model); the k-th call of `gen_random_N()` in a function is `gen_random_N k` (explicit randomness, in the order of the draws).
+BYTES = ("list", "byte")
+CK = dict(u8_bytes=True, inline_int_lets=True, emit_sig=True)
+C_HASH = {"hash": ("crypt_hash", ["str", ("list", BYTES)], ("res", BYTES), False)}
+DIGEST = ("abs", "(List UInt8)")          # the state of a `Sha512` hasher: not a type parameter, operated on by externs only
+X_CRYPT = {"crypt": (["bool", "str", "str", BYTES, BYTES, BYTES], ("res", BYTES), False)}
+X_HMAC = {"hmac": (["str", BYTES, ("list", BYTES)], ("res", BYTES), False)}
+C_INFO = {"build_encryption_info": ("crypt_build_encryption_info", [BYTES, "usize", "usize", "usize", "str", "str", "str", BYTES, BYTES, "usize", BYTES,
+                                     "usize", "usize", "usize", "str", "str", "str", BYTES, BYTES, BYTES], BYTES, False)}
+XMLW = ("abs", "W")
+ATTRS = ("list", ("tuple", ["str", "str"]))
+C_SLICE = {"buffer_slice": ("crypt_buffer_slice", [BYTES, "usize", "usize"], BYTES, True)}
+C_ALLOC = {"buffer_alloc": ("crypt_buffer_alloc", ["byte", "usize"], BYTES, False)}
+C_CONCAT = {"buffer_concat": ("crypt_buffer_concat", [("list", BYTES)], BYTES, False)}
+C_COPY = {"buffer_copy": ("crypt_buffer_copy", [BYTES, BYTES], "unit", True, 0)}
+C_WRITE32 = {"buffer_write_u_int32_le": ("crypt_buffer_write_u_int32_le", [BYTES, "u32", "usize"], "unit", True, 0)}
+C_READ32 = {"buffer_read_u_int32_le": ("crypt_buffer_read_u_int32_le", [BYTES, "usize"], "u32", True)}
+C_LE32 = {"create_uint32_le_buffer": ("crypt_create_uint32_le_buffer", ["u32", ("opt", "usize")], BYTES, True)}
+C_PWHASH = {"convert_password_to_hash": ("crypt_convert_password_to_hash", ["str", "str", BYTES, "usize"], BYTES, True)}
+C_PWKEY = {"convert_password_to_key": ("crypt_convert_password_to_key", ["str", "str", BYTES, "usize", "usize", BYTES], BYTES, True)}
+C_IV = {"create_iv": ("crypt_create_iv", ["str", BYTES, "usize", BYTES], BYTES, True)}
+C_PACKAGE = {"crypt_package": ("crypt_crypt_package", ["bool", "str", "str", "str", "usize", BYTES, BYTES, BYTES], BYTES, True)}
+PROT = {"SheetProtection": "src/structs/sheet_protection.rs", "WorkbookProtection": "src/structs/workbook_protection.rs"}
+SETTER = dict(CK, calls=C_PWHASH, extern_draws={"gen_random_16": BYTES}, extern_var_fns={("STANDARD", "encode"): ("b64", [BYTES], "str")}, objects=PROT)
+
+TARGETS += [
+    t_fn("crypt_buffer_slice", CRYPT, "buffer_slice", **CK),
+    t_fn("crypt_buffer_alloc", CRYPT, "buffer_alloc", **CK),
+    t_fn("crypt_buffer_concat", CRYPT, "buffer_concat", **CK),
+    t_fn("crypt_buffer_copy", CRYPT, "buffer_copy", **CK),
+    t_fn("crypt_buffer_write_u_int32_le", CRYPT, "buffer_write_u_int32_le", **CK),
+    t_fn("crypt_buffer_read_u_int32_le", CRYPT, "buffer_read_u_int32_le", **CK),
+    t_fn("crypt_create_uint32_le_buffer", CRYPT, "create_uint32_le_buffer", calls=dict(C_ALLOC, **C_WRITE32), **CK),
+    t_fn("crypt_hash", CRYPT, "hash", calls=C_CONCAT, extern_ctors={("Sha512", "new"): ("sha512_new", DIGEST)},
+         extern_mut_methods={("abs", "update"): ("sha512_update", [BYTES])}, extern_methods={("abs", "finalize"): ("sha512_finalize", [], BYTES, False)}, **CK),
+    t_fn("crypt_convert_password_to_hash", CRYPT, "convert_password_to_hash", calls=dict(C_LE32, **C_HASH), **CK),
+    t_fn("crypt_encrypt_sheet_protection", CRYPT, "encrypt_sheet_protection", **SETTER),
+    t_fn("crypt_encrypt_workbook_protection", CRYPT, "encrypt_workbook_protection", **SETTER),
+    t_fn("crypt_encrypt_revisions_protection", CRYPT, "encrypt_revisions_protection", **SETTER),
+    t_fn("crypt_convert_password_to_key", CRYPT, "convert_password_to_key", calls=dict(C_LE32, **C_ALLOC, **C_COPY, **C_SLICE, **C_HASH), **CK),
+    t_fn("crypt_create_iv", CRYPT, "create_iv", calls=dict(C_ALLOC, **C_COPY, **C_SLICE, **C_HASH), **CK),
+    t_fn("crypt_crypt_package", CRYPT, "crypt_package", calls=dict(C_SLICE, **C_ALLOC, **C_CONCAT, **C_LE32, **C_IV, **C_READ32), extern_fns=X_CRYPT,
+         while_fuel="input.len() + 1", **CK),
+    t_fn("crypt_build_encryption_info", CRYPT, "build_encryption_info", calls=C_CONCAT, abstract_types={"Writer": "W"}, xml_writer=True,
+         extern_ctors={("Writer", "new"): ("xml_new", XMLW)},
+         extern_mut_fns={"write_new_line": ("xml_new_line", [XMLW], 0), "write_start_tag": ("xml_start_tag", [XMLW, "str", ATTRS, "bool"], 0),
+                         "write_end_tag": ("xml_end_tag", [XMLW, "str"], 0)},
+         extern_var_fns={("STANDARD", "encode"): ("b64", [BYTES], "str")}, const_files=["src/helper/const_str.rs"], **CK),
+    t_fn("crypt_encrypt_parts", CRYPT, "encrypt_parts", calls=dict(C_PACKAGE, **C_IV, **C_PWKEY, **C_HASH, **C_INFO), abstract_types={"Writer": "W"},
+         extern_fns=dict(X_CRYPT, **X_HMAC),
+         extern_draws={"gen_random_16": BYTES, "gen_random_32": BYTES, "gen_random_64": BYTES}, **CK),
+]
+
 HEADER = ("/-\n  GENERATED by tools/extract_fns.py from the current source of /repo — do not edit.\n"
           "  Functions, closures, fragments and constants compiled from a first-order Rust fragment (see the tool's doc string).\n-/\n"
           "import Umya.Model.GenPrelude\nnamespace Umya.Gen\nset_option linter.unusedVariables false\n\n")
@@ -1496,6 +1924,10 @@ def main():
             if txt is not None:
                 hd = re.search(r"^def " + re.escape(name) + r"\b([^\n]*)", txt, re.M)
                 if hd: SIGS[name] = {"F": "[RFloat F]" in hd.group(1), "C": "(C : Chrono)" in hd.group(1), "mon": None}
+                sg = re.search(r"^-- SIG (.*)$", txt, re.M)
+                if hd and sg:
+                    sj = json.loads(sg.group(1))
+                    SIGS[name].update({"mon": sj["mon"], "extra": [tuple(x) for x in sj["extra"]], "abs": sj.get("abs", [])})
             fallbacks.append({"function": name, "reason": (type(ex).__name__ + ": " + str(ex))[:200], "snapshot_kept": bool(m)})
         if txt is not None:
             parts.append(f"-- BEGIN {name}\n{txt}-- END {name}\n")
